@@ -9,7 +9,8 @@ public methods of reachable values (str.format / format_map).
 import ast
 import re
 
-from ..astx import walk_no_nested, dotted, call_name, dominating_conditions, flatten_conditions, func_params, terminates
+from ..astx import walk_no_nested, dotted, call_name, dominating_conditions, flatten_conditions, func_params, terminates, \
+    resolve_local
 from ..core import norm, Inconclusive
 
 MOD = "graphtage.expressions"
@@ -292,12 +293,133 @@ def r19e(ctx, names):
                               f"the attribute named in the format string, including private ones")
 
 
+REQUIRED_INTROSPECTION = {"GeneratorType", "CoroutineType", "FrameType", "CodeType", "TracebackType", "FunctionType", "ModuleType"}
+
+
+def r19f(ctx):
+    m = ctx.model
+    ctx.rule("R19f", "interpreter objects are dead ends: generators, coroutines, frames, code objects, tracebacks, functions and "
+                     "modules expose builtins / globals / locals through PUBLIC names (gi_frame, f_builtins, f_globals, co_consts), "
+                     "so the underscore test alone does not confine member access; get_member must refuse every member of such "
+                     "objects (an isinstance test against those types that raises before the getattr)")
+    gm = m.functions.get(f"{MOD}.get_member")
+    f = m.files[MOD]
+    obj = func_params(gm.node)[0]
+    found = set()
+    site = None
+    for i in walk_no_nested(gm.node):
+        if isinstance(i, ast.If) and isinstance(i.test, ast.Call) and call_name(i.test) == "isinstance" and len(i.test.args) == 2 \
+                and dotted(i.test.args[0]) == obj and any(isinstance(x, ast.Raise) for x in i.body):
+            t = i.test.args[1]
+            if isinstance(t, ast.Name):
+                r = m.lookup(MOD, t.id)
+                t = r[1] if r and r[0] == "assign" else t
+            for e in (t.elts if isinstance(t, ast.Tuple) else [t]):
+                d = dotted(e) or ""
+                if d.startswith("types."):
+                    found.add(d.split(".", 1)[1])
+            site = i
+    getattrs = [c for c in walk_no_nested(gm.node) if isinstance(c, ast.Call) and call_name(c) == "getattr"]
+    before = site is not None and all(site.lineno < c.lineno for c in getattrs)
+    missing = sorted(REQUIRED_INTROSPECTION - found)
+    if not missing and before:
+        ctx.proved("R19f", f, "get_member", site, "interpreter objects refused", f"members of {sorted(found)} are refused before getattr")
+    else:
+        ctx.violation("R19f", f, "get_member", site or gm.node, "interpreter objects refused",
+                      f"get_member does not refuse members of {missing or 'interpreter objects'} before its getattr: with a TreeNode in "
+                      f"the environment, `(from.get_all_edits(to)).gi_frame.f_builtins['getattr']` hands the expression an "
+                      f"unrestricted getattr and __import__ (private attributes, arbitrary code) although no name in it starts with "
+                      f"an underscore")
+
+
+def r19g(ctx):
+    m = ctx.model
+    ctx.rule("R19g", "indexing cannot be applied to classes: `list[x]` builds a types.GenericAlias whose C implementation reads "
+                     "x.__origin__ / __qualname__ / __module__ and calls x.__typing_subst__; the GETITEM operator must refuse "
+                     "type objects before subscripting")
+    q, ops = operator_table(m)
+    f = m.files[MOD]
+    s_, elts = ops.get("GETITEM", (None, None))
+    if s_ is None:
+        ctx.inconclusive("R19g", f, "Operator", None, "GETITEM", "GETITEM operator not found")
+        return
+    lam = elts[2]
+    body = lam.body if isinstance(lam, ast.Lambda) else None
+    ok = False
+    why = f"`{norm(lam, 50)}` subscripts its left operand directly"
+    if isinstance(body, ast.Call) and call_name(body):
+        h = m.functions.get(f"{MOD}.{call_name(body)}")
+        if h is not None:
+            p0 = func_params(h.node)[0]
+            subs = [x for x in walk_no_nested(h.node) if isinstance(x, ast.Subscript) and dotted(x.value) == p0]
+            guards = [i for i in walk_no_nested(h.node) if isinstance(i, ast.If) and ast.unparse(i.test).replace(" ", "") == f"isinstance({p0},type)"
+                      and any(isinstance(x, ast.Raise) for x in i.body)]
+            ok = bool(subs) and bool(guards) and all(guards[0].lineno < x.lineno for x in subs)
+            why = f"{call_name(body)} does not raise for `isinstance({p0}, type)` before `{p0}[...]`"
+    if ok:
+        ctx.proved("R19g", f, "Operator.GETITEM", s_, "classes not subscriptable", f"`{norm(lam, 50)}` refuses type objects before subscripting")
+    else:
+        ctx.violation("R19g", f, "Operator.GETITEM", s_, "classes not subscriptable",
+                      f"{why}: `str(list[x])` (list, tuple, dict, set, frozenset are whitelisted) makes CPython's generic-alias code "
+                      f"read x.__origin__, x.__qualname__ and x.__module__ - private attributes get_member refuses")
+
+
+def r19h(ctx):
+    m = ctx.model
+    ctx.rule("R19h", "objects handed to expressions do not export their private state through public methods: when an evaluation "
+                     "site passes live nodes (not their to_obj() data) as variables, no public method of those classes returns "
+                     "self.__dict__ / vars(self) (or a copy)")
+    live = []
+    for fq, fn in sorted(m.functions.items()):
+        for c in walk_no_nested(fn.node):
+            if isinstance(c, ast.Call) and isinstance(c.func, ast.Attribute) and c.func.attr == "eval":
+                for k in c.keywords:
+                    if k.arg == "locals" and isinstance(k.value, ast.Dict):
+                        for v in k.value.values:
+                            if isinstance(v, ast.Name) and v.id in func_params(fn.node):
+                                live.append((fn, c, v.id))
+    ctx.floor("R19h", len(live), 1, "evaluation sites passing live objects")
+    TREE = "graphtage.tree.TreeNode"
+    n = 0
+    flagged = []
+    for q in sorted(m.subclasses(TREE)):
+        for name, (kind, fn) in sorted(m.attrs[q].items()):
+            if kind != "def" or name.startswith("_"):
+                continue
+            for r in walk_no_nested(fn.node):
+                if isinstance(r, ast.Return) and r.value is not None:
+                    t = ast.unparse(resolve_local(fn.node, r.value)).replace(" ", "")
+                    if "self.__dict__" in t or "vars(self)" in t:
+                        flagged.append((q, name, fn, r))
+    for q, name, fn, r in flagged:
+        overrides = sorted(o.rsplit(".", 1)[-1] for o, n2, _, _ in flagged if n2 == name and o != q and m.is_subclass(o, q))
+        if any(n2 == name and o != q and m.is_subclass(q, o) for o, n2, _, _ in flagged):
+            continue        # an override of a flagged base method: reported once, at the base
+        if True:
+            if True:
+                if True:
+                    if True:
+                        n += 1
+                        site = live[0] if live else None
+                        ctx.violation("R19h", fn.file, fn.short, r, f"{fn.short} returns the instance dict",
+                                      f"{fn.short}() returns `{norm(r.value, 40)}` and "
+                                      + (f"{site[0].short} evaluates expressions over live nodes (`{site[2]}`)" if site else "nodes are handed to expressions")
+                                      + (f" (overridden alike in {overrides})" if overrides else "")
+                                      + ": an expression can call it and index the result with a private attribute name "
+                                        "(`from.editable_dict()['_parent']`), observing private state without any underscore member access")
+    if not n:
+        ctx.proved("R19h", m.files[MOD], "-", None, "no public __dict__ export", "no public node method returns the instance dict")
+
+
 def run(ctx):
     r19a(ctx)
     r19b(ctx)
     r19c(ctx)
     names = r19d(ctx)
     r19e(ctx, names)
+    r19f(ctx)
+    r19g(ctx)
+    r19h(ctx)
     ctx.assume("the denylist of reflective built-ins and the table of attribute-traversing public methods are frozen "
                "tables (DESIGN.md section 8); objects placed in the environment by the caller may expose further "
                "public methods that traverse attributes - out of scope")
